@@ -195,7 +195,7 @@ func C19(r *core.Run) {
 	tmpl := func(tok string, rq, rs int) c19Exchange {
 		return c19Exchange{Tok: tok, Backend: "bkF", User: "uf@example.com", Path: "/f/", Method: "POST", ReqSize: rq, RespSize: rs, Status: 200, Answer: true}
 	}
-	faults := map[string]interface{}{"templates": []c19Exchange{tmpl("fs", 1024, 1024), tmpl("fb", 2000001, 2000001)}, "nth": []int{1}, "workers": 16}
+	faults := map[string]interface{}{"templates": []c19Exchange{tmpl("fs", 1024, 1024), tmpl("fb", 1000001, 1000001)}, "endpoints": [][]string{nil, {"post"}}, "nth": []int{1}, "workers": 16}
 	if !r.Quick() {
 		faults = map[string]interface{}{"templates": []c19Exchange{tmpl("fs", 1024, 1024), tmpl("fb", 2000001, 2000001), tmpl("fm", 1000000, 999999), tmpl("fx", 3500000, 1024)},
 			"nth": []int{1, 2}, "timeouts": true, "workers": 16}
